@@ -184,6 +184,34 @@ def build_ipputil():
 
 
 def run_cases(binary, pid, tier, seed, outdir, corpus=True):
+    if isinstance(binary, list):
+        # several harness builds (TLS backends): run each into its own directory and merge
+        os.makedirs(outdir, exist_ok=True)
+        merged = {"cases.txt": [], "impl.out": [], "oracle.out": [], "model.out": []}
+        stats_all = None
+        last = (None, None)
+        for i, b in enumerate(binary):
+            sub = os.path.join(outdir, f"part{i}")
+            r, m = run_cases(b, pid, tier, seed, sub, corpus)
+            last = (r, m)
+            if r.returncode != 0:
+                return r, m
+            for k in merged:
+                merged[k] += open(os.path.join(sub, k), encoding="utf-8", errors="replace").read().splitlines()
+            st = json.load(open(os.path.join(sub, "stats.json")))
+            if stats_all is None:
+                stats_all = st
+            else:
+                for k in ("cases", "corpus_cases", "distinct", "distinct_nontrivial", "oracle_failures"):
+                    stats_all[k] = stats_all.get(k, 0) + st.get(k, 0)
+                for k in ("ops", "classes"):
+                    for kk, vv in st.get(k, {}).items():
+                        stats_all[k][kk] = stats_all[k].get(kk, 0) + vv
+                stats_all["samples"] = (stats_all.get("samples", []) + st.get("samples", []))[:6]
+        for k, v in merged.items():
+            open(os.path.join(outdir, k), "w").write("\n".join(v) + "\n")
+        json.dump(stats_all, open(os.path.join(outdir, "stats.json"), "w"))
+        return last
     os.makedirs(outdir, exist_ok=True)
     args = [binary, "run", pid, "--tier", tier, "--seed", str(seed), "--out", outdir]
     if corpus:
@@ -279,8 +307,19 @@ def check(pid, tier):
             P.append("axiom audit: " + b)
         for b in aud["forbidden"]:
             P.append("forbidden construct: " + b)
-        rb, binary = build_harness(cfg.get("features"))
-        harness_ok = rb.returncode == 0
+        binaries = []
+        if cfg.get("multi_features"):
+            harness_ok = True
+            for f in cfg["multi_features"]:
+                rb, b = build_harness(f)
+                binaries.append(b)
+                harness_ok = harness_ok and rb.returncode == 0
+                if rb.returncode != 0:
+                    break
+            binary = binaries
+        else:
+            rb, binary = build_harness(cfg.get("features"))
+            harness_ok = rb.returncode == 0
         if harness_ok and cfg.get("needs_ipputil"):
             rb, _ = build_ipputil()
             harness_ok = rb.returncode == 0
@@ -413,7 +452,7 @@ def setup():
         print((r.stdout or "")[-800:])
         if r.returncode != 0:
             return 1
-        feats = sorted({c.get("features") or "" for c in PROPS.values()})
+        feats = sorted({c.get("features") or "" for c in PROPS.values()} | {f for c in PROPS.values() for f in c.get("multi_features", [])})
         for f in feats:
             r, _ = build_harness(f or None)
             print((r.stdout or "")[-1500:])
@@ -433,7 +472,9 @@ def replay(path):
     with Lock():
         translate()
         lake("ippmodel")
-        _, binary = build_harness(cfg.get("features"))
+        _, binary = build_harness(cfg.get("features") or (cfg.get("multi_features") or [None])[0])
+        if cfg.get("multi_features") and d.get("case", "").startswith("tlscase rustls"):
+            _, binary = build_harness("rustls")
         if cfg.get("needs_ipputil"):
             build_ipputil()
     r = subprocess.run([binary, "exec", pid], input=case + "\n", capture_output=True, text=True,
